@@ -54,6 +54,7 @@ type Inc struct {
 	out    chan message.Message
 	dead   chan struct{}
 	once   sync.Once
+	Dgram  wire.EncodingTransport // datagram channel towards the client (Broker.Datagrams)
 	// per-incarnation alias tables
 	upByAlias map[uint32]*UpStream
 	nextUpAl  uint32
@@ -74,7 +75,8 @@ type Broker struct {
 	PreLog func(inc *Inc, m message.Message) bool
 	// DialGate, when non-nil, makes every dial wait until the channel is closed (an outage the harness controls)
 	DialGate chan struct{}
-	// DialScript: outcomes of the next dials ("ok", "fail", "cut" = accept and sever before the connect response); then ok
+	// DialScript: outcomes of the next dials ("ok", "fail", "cut" = accept and sever before the connect response, "deadlink" =
+	// the link is dead by the time the client uses it, no incarnation); then ok
 	DialScript []string
 	DialDelay  time.Duration
 	Dials      int
@@ -89,6 +91,8 @@ type Broker struct {
 	HoldAcks bool
 	// AssignAliases: the automatic chunk ack assigns data id aliases for the ids listed in the chunk
 	AssignAliases bool
+	// Datagrams: client transports also offer a datagram channel; the broker side of it (Inc.Dgram) takes what the harness sends
+	Datagrams bool
 	// FirstCloseErr: what Close of a client transport returns the first time (the transport is closed all the same)
 	FirstCloseErr error
 	// ResumeCodes: result codes for the next resume requests (then success)
@@ -111,7 +115,12 @@ type cliTransport struct {
 	params transport.NegotiationParams
 	closed atomic.Bool
 	firstCloseErr error
+	dgram transport.ReadWriter // non-nil: the transport also has a datagram channel (AsUnreliable)
 }
+
+type dgramSide struct{ transport.ReadWriter }
+
+func (dgramSide) IsUnreliable() {}
 
 // Close: like the QUIC and WebSocket transports, a second Close reports that the transport was closed already.
 func (c *cliTransport) Close() error {
@@ -125,7 +134,12 @@ func (c *cliTransport) Close() error {
 	return c.firstCloseErr // e.g. a WebSocket whose dead peer never answers the close handshake: closed, and an error
 }
 
-func (c *cliTransport) AsUnreliable() (transport.UnreliableTransport, bool) { return nil, false }
+func (c *cliTransport) AsUnreliable() (transport.UnreliableTransport, bool) {
+	if c.dgram != nil {
+		return dgramSide{c.dgram}, true
+	}
+	return nil, false
+}
 func (c *cliTransport) NegotiationParams() transport.NegotiationParams     { return c.params }
 func (c *cliTransport) Name() transport.Name                               { return transport.Name(TransportName) }
 func (c *cliTransport) CloseWithStatus(transport.CloseStatus) error        { return c.Close() }
@@ -188,6 +202,16 @@ func (b *Broker) dial(c transport.DialConfig) (transport.Transport, error) {
 		b.mu.Unlock()
 		return nil, fmt.Errorf("scripted dial failure")
 	}
+	if outcome == "deadlink" {
+		// the dial succeeds and the link drops during the connect handshake: the client's first write or read on the fresh
+		// transport reports a closed connection. No incarnation comes into being.
+		srv, cli := transport.Pipe()
+		srv.Close()
+		b.mu.Lock()
+		b.cond.Broadcast()
+		b.mu.Unlock()
+		return &cliTransport{ReadWriter: cli, params: c.NegotiationParams()}, nil
+	}
 	srvRaw, cliRaw := transport.Pipe()
 	p := c.NegotiationParams()
 	p.Encoding = transport.EncodingNameProtobuf
@@ -202,8 +226,23 @@ func (b *Broker) dial(c transport.DialConfig) (transport.Transport, error) {
 	go inc.reader(outcome == "cut")
 	b.mu.Lock()
 	fce := b.FirstCloseErr
+	dg := b.Datagrams
 	b.mu.Unlock()
-	return &cliTransport{ReadWriter: cliRaw, params: p, firstCloseErr: fce}, nil
+	ct := &cliTransport{ReadWriter: cliRaw, params: p, firstCloseErr: fce}
+	if dg {
+		srvD, cliD := transport.Pipe()
+		ct.dgram = cliD
+		inc.Dgram = encoding.NewTransport(&encoding.TransportConfig{Transport: srvD, Encoding: protobuf.NewEncoding()})
+		go func() { // what the client sends as datagrams is of no interest here
+			for {
+				if _, err := srvD.Read(); err != nil {
+					return
+				}
+			}
+		}()
+		go func() { <-inc.dead; srvD.Close() }()
+	}
+	return ct, nil
 }
 
 func (i *Inc) writer() {
